@@ -450,7 +450,9 @@ def run_multitier(case: dict) -> Result:
         spec = case[label]
         pol = mk_policy(spec["policy"], nowf)
         st = CachedStore(label, backing_store=backing, cache_capacity=spec["capacity"], eviction_policy=pol, cache_read_latency=spec["latency"], write_through=spec["write_through"])
-        tiers.append(Tier(label, st, pol, spec["policy"]["name"], write_back=not spec["write_through"]))
+        # MultiTierCache.put writes the backing store before L1, so L1's dirty data is never the only copy:
+        # the dirty-drop monitor is not applied to the tiers (write_back=False here only switches that monitor off)
+        tiers.append(Tier(label, st, pol, spec["policy"]["name"], write_back=False))
     multi = MultiTierCache("multi", tiers=[t.store for t in tiers], backing_store=backing, promotion_policy=case["promotion"])
     mon = Mon(res, "MultiTierCache", multi, backing, keys, tiers, init)
     ctx = _Ctx(mon, len(case["clients"]) + 1)
@@ -650,7 +652,7 @@ def run_pagecache(case: dict) -> Result:
                     others = state["inflight_loads"] > 0
                     violate(
                         "library-exception",
-                        f"{type(exc).__name__}-in-{kind}:" + ("interleaved-clients" if len(state["started"]) > 1 else "single-client"),
+                        f"{type(exc).__name__}:" + ("interleaved-clients" if len(state["started"]) > 1 else "single-client"),
                         f"{kind}_page/flush raised {type(exc).__name__}: {exc}",
                         {"client": self.cid, "op": [gap, kind, page], "t_ns": self.now.nanoseconds, "others_in_flight": others},
                     )
